@@ -61,6 +61,13 @@ func genConcCase(rng *simrt.Rng, o *ConcOpts) *ConcCase {
 func (e *concEngine) Run(a *agg, spec *PropSpec, seed uint64) {
 	o := e.opts
 	rng := simrt.NewRng(seed, 20)
+	if a.opts.Tier == "thorough" && rng.Intn(2) == 0 {
+		// deeper bounds in half of the thorough runs: one more task, programs up to twice as long
+		deep := *o
+		deep.Tasks[1]++
+		deep.OpsPer[1] *= 2
+		o = &deep
+	}
 	cc := genConcCase(&rng, o)
 	srng := simrt.NewRng(seed, 21)
 	if a.horizon < 200 {
